@@ -244,9 +244,11 @@ def run(ctx):
     if rst is None or init is None:
         raise AnalysisError("GraphUpdater.reset/__init__ vanished")
     src_attr = None
+    rst_raw, init_raw = rst, init
+    rst, init = ctx.norm.flat(rst), ctx.norm.flat(init)  # private factories inlined
     for nd in own_nodes(rst.node):
         if isinstance(nd, ast.Assign) and any(isinstance(t, ast.Attribute) and t.attr == "job_shop_graph" for t in nd.targets):
-            v = nd.value
+            v = ctx.norm.xexpr(rst, nd.value)
             if isinstance(v, ast.Call) and ast.unparse(v.func) in ("deepcopy", "copy.deepcopy") and v.args and isinstance(v.args[0], ast.Attribute) and ast.unparse(v.args[0].value) == "self":
                 src_attr = v.args[0].attr
                 chk.ok("R12.d", rst.qualname, rst.loc(nd), f"rebinds from deepcopy(self.{src_attr})")
@@ -266,7 +268,7 @@ def run(ctx):
         took = False
         for nd in own_nodes(init.node):
             if isinstance(nd, ast.Assign) and any(isinstance(t, ast.Attribute) and t.attr == src_attr for t in nd.targets):
-                v = nd.value
+                v = ctx.norm.xexpr(init, nd.value)
                 if isinstance(v, ast.Call) and ast.unparse(v.func) in ("deepcopy", "copy.deepcopy"):
                     took = True
                     chk.ok("R12.d", init.qualname, init.loc(nd), f"self.{src_attr} is a deep copy taken at construction")
